@@ -364,7 +364,6 @@ struct TableAd {
 	static BoxInfo info() {
 		BoxInfo b; b.kind = "one"; b.crew = true; b.trivial = true; b.movable = true; b.sel = MgrId<MM>::sel; b.ordered = true; b.exactMoves = false;
 		b.reusableNull = false; b.counted = false; b.stateful = mmStateful<MM>(); b.exactFrees = false; b.clearKeepModes = 1;
-		b.nullOpsBroken = mmStateful<MM>();   // known finding F26
 		b.hasCopyM = false;
 		return b;
 	}
@@ -465,7 +464,7 @@ static void poolCase(Ctx& c, Rng& rng, const char* name) {
 	}
 }
 
-// known finding F26: a moved-from DataTable with a stateful manager, after the object that took its crew died
+// corpus, repaired finding F26: a moved-from DataTable with a stateful manager, after the object that took its crew died
 template<typename MM>
 static void probeF26(Ctx& c) {
 	typedef TableAd<MM> Ad;
@@ -480,12 +479,12 @@ static void probeF26(Ctx& c) {
 			if (led().bad) _exit(2);
 		});
 		c.stats.evaluations++; c.stats.count(ok ? "f26.survived" : "f26.crashed");
-		if (!ok) c.fail("C14 known-F26 moved-from-table-dangling-manager: DataTable<MemManagerStd<stateful allocator>> a(id 1), b(id 2), one row each; "
+		if (!ok) c.fail("C14 regression of F26 (moved-from table, dangling manager): DataTable<MemManagerStd<stateful allocator>> a(id 1), b(id 2), one row each; "
 			"{ Table t(std::move(a)); } %s; -> child process died (use of the freed manager through the moved-from mRawMemPool)", names[mode]);
 	}
 }
 
-// known finding F26, second form: two live DataTables with EQUAL stateful managers are swapped, one dies, the other allocates
+// corpus, repaired finding F26, second form: two live DataTables with EQUAL stateful managers are swapped, one dies, the other allocates
 template<typename MM>
 static void probeF26b(Ctx& c) {
 	typedef TableAd<MM> Ad;
@@ -499,7 +498,7 @@ static void probeF26b(Ctx& c) {
 			if (led().bad) _exit(2);
 		});
 		c.stats.evaluations++; c.stats.count(ok ? "f26b.survived" : "f26b.crashed");
-		if (!ok) c.fail("C14 known-F26 table-swap-equal-managers-dangling: DataTable<MemManagerStd<stateful allocator>> a(id 1), b(id 1) (equal managers), one row each; "
+		if (!ok) c.fail("C14 regression of F26 (swap of tables with equal managers): DataTable<MemManagerStd<stateful allocator>> a(id 1), b(id 1) (equal managers), one row each; "
 			"%s; the other object dies; 197 x AddRow -> child process died (rows allocated through the manager of the dead object)", names[mode]);
 	}
 }
